@@ -121,7 +121,7 @@ func newEnv(evPath string) *env {
 	ioutil.WriteFile(aggs, []byte("[default]\npattern = .*\nxFilesFactor = 0.5\naggregationMethod = avg\n"), 0644)
 	ioutil.WriteFile(bad, []byte("[default\npattern = (\nretentions = 0s:x\n\x00"), 0644)
 	e.repl = strings.NewReplacer("@SINK@", e.sinks[0].addr(), "@SINK2@", e.sinks[1].addr(), "@SINK3@", e.sinks[2].addr(),
-		"@HTTP@", e.httpAddr, "@SCHEMAS@", schemas, "@AGGS@", aggs, "@BADSCHEMAS@", bad)
+		"@HTTP@", e.httpAddr, "@HTTPHOST@", strings.TrimSuffix(e.httpAddr, "/metrics"), "@SCHEMAS@", schemas, "@AGGS@", aggs, "@BADSCHEMAS@", bad)
 	e.log = hx.NewLog(evPath)
 	e.log.Unbuffered = true
 	return e
@@ -277,6 +277,33 @@ type caseRun struct {
 	naggs  int
 	hangAt time.Duration
 	rules  []*step // accepted rewriters / aggregations of the degenerate-name classes
+	ownTbl bool    // the table of this case was built from a `config` command of the history
+}
+
+// startTable does what main() does with the top-level configuration: TOML -> cfg.Config -> TableConfig() ->
+// table.New -> cfg.InitTable.  table.New starts the table's background goroutines (bad-metrics bookkeeping):
+// a request to that goroutine is answered only once it is past its set-up and serving - or the process is gone.
+func (cr *caseRun) startTable(text string) error {
+	config := cfg.NewConfig()
+	meta, err := toml.Decode(text, &config)
+	if err != nil {
+		return err
+	}
+	if config.Spool_dir == "" {
+		config.Spool_dir = cr.e.dir
+	}
+	tc, err := config.TableConfig()
+	if err != nil {
+		return err
+	}
+	tbl := table.New(tc)
+	if err := cfg.InitTable(tbl, config, meta); err != nil {
+		return err
+	}
+	tbl.Bad().Get(time.Hour)
+	tbl.SpoolDir = cr.tbl.SpoolDir
+	cr.tbl, cr.e.tbl, cr.ownTbl = tbl, tbl, true
+	return nil
 }
 
 // rulePump sends well-formed metrics that the accepted degenerate-name rules match through Table.Dispatch and
@@ -365,6 +392,8 @@ func (cr *caseRun) apply(st *step) error {
 	text := cr.e.repl.Replace(st.Text)
 	c := st.Cmd
 	switch {
+	case c.Op == "config":
+		return cr.startTable(text)
 	case c.Op == "view":
 		s := cr.tbl.Print()
 		b, err := json.Marshal(cr.tbl.Snapshot())
@@ -499,6 +528,11 @@ func (cr *caseRun) run() int {
 		e.tbl = table.New(tc)
 	}
 	cr.tbl = e.tbl
+	defer func() {
+		if cr.ownTbl { // the next history starts from the default configuration again
+			e.tbl = nil
+		}
+	}()
 	cr.tbl.SpoolDir = spool
 	cr.rev = map[string]string{}
 	for a, c := range cc.Keys {
